@@ -4,6 +4,8 @@ import LocustModel.Lemmas.StoreWal
 import LocustModel.Lemmas.StoreDurableRun
 import LocustModel.Lemmas.StoreDurableTotal
 import LocustModel.Lemmas.StoreExample
+import LocustModel.Store.Interleave
+import LocustModel.Lemmas.StoreInterleave
 /-
   C08 — acknowledged data survives a clean restart, exactly once.  Property theorems only.
 
@@ -13,6 +15,13 @@ import LocustModel.Lemmas.StoreExample
   {"column_name"}, a request is a map (each table / column once), at most one compaction per table and flush,
   key lists non-empty, replay orders are permutations.
   The proofs go through the invariant `Durable` (Lemmas/StoreDurable*.lean), by induction over the history.
+
+  Second half (`C08_interleaved_…`): the same statements for INTERLEAVED histories (`Store/Interleave.lean`): a flush is
+  the sequence of its real steps (freeze block / batching + persist_partitions + compactions / persist_metastore /
+  delete_orphaned_partitions / delete_wal_segments) and ingestion calls (and force_flush requests) may happen between
+  any two of them, as in the code, where only the freeze block excludes ingestion.  A clean restart needs a quiescent
+  state (no flush in flight).  Sequential histories are the special case `embed` (`C08_sequential_is_interleaved`).
+  Invariant: `IDurable` (Lemmas/StoreInterleave.lean).
 -/
 namespace LM.C08
 open LM LM.Store
@@ -106,5 +115,97 @@ example : ∃ w w', ParamsOk Ex.P0 ∧ HistWF Ex.opsA ∧ run Ex.P0 Ex.opsA (ini
                                  ⟨1, [(.user 7, [.val 9]), (.user 9, [.val 3])]⟩] ∧
     walIds w.disk = [2] :=
   ⟨_, _, Ex.P0_ok, Ex.opsA_wf, rfl, rfl, rfl, by decide⟩
+
+-- ================================================================================================ interleaved histories
+
+/-- At EVERY state of EVERY interleaved history — also while a flush is between any two of its steps and ingestion
+    calls have run since its freeze — a query of user table `n` sees exactly the rows of all returned ingestion calls,
+    in the order the calls returned. -/
+theorem C08_interleaved_content (P : Params ν κ) (hP : ParamsOk P) (ops : List (IOp ν κ)) (hwf : IHistWF ops)
+    (iw : IWorld ν κ) (hrun : irun P ops = .ok iw) (n : ν) :
+    content iw.w (.user n) = .ok (iacked ops (.user n)) := by
+  rw [(idurable_run P hP ops hwf iw hrun).content, irun_log_user P n ops iw hrun]
+
+/-- Clean restart after ANY interleaved history that ended with no flush in flight — in particular after a flush that
+    overlapped ingestion calls: the rows acknowledged between its freeze and its persist_metastore are in log segments
+    with ids ≥ the cursor that flush stored (the CAPTURED end of the unflushed range), so `recover` replays them:
+    for EVERY replay order every user table shows exactly the acknowledged rows (nothing lost, nothing twice), every
+    table is as before the restart, the same tables exist, the directory is untouched. -/
+theorem C08_interleaved_restart_content (P : Params ν κ) (hP : ParamsOk P) (ops : List (IOp ν κ)) (hwf : IHistWF ops)
+    (iw : IWorld ν κ) (w' : World ν κ) (order : Nat → Request ν κ → Request ν κ) (hord : ∀ id r, (order id r).Perm r)
+    (hrun : irun P ops = .ok iw) (hq : iw.fl = none) (hre : recover P iw.w.disk iw.w.log iw.w.lossy order = .ok w') :
+    (∀ n, content w' (.user n) = .ok (iacked ops (.user n))) ∧
+    (∀ t, content w' t = content iw.w t) ∧
+    (∀ t, (w'.mem.tables t).isSome = (iw.w.mem.tables t).isSome) ∧
+    w'.disk = iw.w.disk := by
+  obtain ⟨pre, hd⟩ := (idurable_run P hP ops hwf iw hrun).quiescent hq
+  obtain ⟨hd', hdisk, hlog⟩ := hd.recover hP.init hord hre
+  refine ⟨fun n => ?_, fun t => ?_, fun t => ?_, hdisk⟩
+  · rw [hd'.content, hlog, irun_log_user P n ops iw hrun]
+  · rw [hd'.content, hd.content, hlog]
+  · have h1 := hd'.exists_iff t
+    have h2 := hd.exists_iff t
+    rw [hlog] at h1
+    exact Bool.eq_iff_iff.mpr (h1.trans h2.symm)
+
+/-- … and that restart cannot fail. -/
+theorem C08_interleaved_restart_total (P : Params ν κ) (hP : ParamsOk P) (ops : List (IOp ν κ)) (hwf : IHistWF ops)
+    (iw : IWorld ν κ) (order : Nat → Request ν κ → Request ν κ) (hord : ∀ id r, (order id r).Perm r)
+    (hrun : irun P ops = .ok iw) (hq : iw.fl = none) : ∃ w', recover P iw.w.disk iw.w.log iw.w.lossy order = .ok w' := by
+  obtain ⟨pre, hd⟩ := (idurable_run P hP ops hwf iw hrun).quiescent hq
+  exact hd.recover_total hP.init hord
+
+/-- Cursor arithmetic for interleaved histories: whenever no flush is in flight, the segments on disk are exactly the
+    ids `earliest .. nextWal`, the cursor in the catalogue file is `earliest`, and their number is the number of
+    ingestion calls that returned since the last freeze (`sinceFreeze`): the calls a flush overlapped keep their
+    segments, everything the flush captured is gone. -/
+theorem C08_interleaved_cursor_exact (P : Params ν κ) (hP : ParamsOk P) (ops : List (IOp ν κ)) (hwf : IHistWF ops)
+    (iw : IWorld ν κ) (hrun : irun P ops = .ok iw) (hq : iw.fl = none) :
+    walIds iw.w.disk = List.range' iw.w.mem.cat.earliest (sinceFreeze ops) ∧
+    (iw.w.disk.metaFile.map (·.cursor)).getD 0 = iw.w.mem.cat.earliest ∧
+    iw.w.mem.cat.nextWal = iw.w.mem.cat.earliest + sinceFreeze ops := by
+  obtain ⟨pre, hd⟩ := (idurable_run P hP ops hwf iw hrun).quiescent hq
+  have hf := (frame_run P hP ops hwf iw hrun).quiet hq
+  refine ⟨?_, hd.wal.cursor, hf⟩
+  have := hd.wal.ids
+  rw [hf] at this
+  simpa using this
+
+/-- No step of an interleaved history hits an assert / unwrap / expect (`assert!(frozen_buffer.len() == 0)` of
+    freeze_buffer, the contiguity assert of replay, the expects of the lazy column-name query, the asserts of
+    push_typed_cols, the unwraps of compact): in every reachable state every well-formed step either happens or is
+    simply not enabled (e.g. a second flush while one is in flight). -/
+theorem C08_interleaved_no_fault (P : Params ν κ) (hP : ParamsOk P) (ops : List (IOp ν κ)) (hwf : IHistWF ops)
+    (iw : IWorld ν κ) (hrun : irun P ops = .ok iw) (op : IOp ν κ) (hop : IOpWF op) (hok : IOpOk op) :
+    (∃ iw', istep P iw op = .ok iw') ∨ istep P iw op = .error .disabled :=
+  istep_no_fault P hP iw op hop hok (idurable_run P hP ops hwf iw hrun)
+
+/-- The sequential histories of the first half are the interleaved histories in which every flush runs its five steps
+    back to back: same final world, same acknowledged rows.  (So the `C08_interleaved_…` theorems imply the
+    sequential ones.) -/
+theorem C08_sequential_is_interleaved (P : Params ν κ) (ops : List (Op ν κ)) (w : World ν κ)
+    (hrun : run P ops (initWorld P) = .ok w) :
+    irun P (embed ops) = .ok ⟨w, none, [], []⟩ ∧ ∀ t, iacked (embed ops) t = acked ops t :=
+  ⟨embed_run P ops _ w [] hrun, fun t => iacked_embed ops t⟩
+
+-- non-vacuity: a flush that overlaps two ingestion calls (one between freeze and batching, one between batching and
+-- persist_metastore), then a clean restart with reversed replay: all three batches of table 1 are there, the two
+-- overlapped segments (ids 1, 2) are still on disk, the stored cursor is the captured end (1)
+example : ∃ iw, ParamsOk Ex.P0 ∧ IHistWF Ex.iopsA ∧ irun Ex.P0 Ex.iopsA = .ok iw ∧ iw.fl = none ∧
+    content iw.w (.user 1) = .ok [⟨1, [(.user 7, [.val 5])]⟩, ⟨2, [(.user 8, [.val 6, .null])]⟩,
+                                   ⟨1, [(.user 7, [.val 9]), (.user 9, [.val 3])]⟩] ∧
+    walIds iw.w.disk = [1, 2] ∧ iw.w.disk.metaFile.map (·.cursor) = some 1 ∧ sinceFreeze Ex.iopsA = 2 :=
+  ⟨_, Ex.P0_ok, Ex.iopsA_wf, rfl, rfl, rfl, by decide, by decide, by decide⟩
+
+/-- Sensitivity: the theorems above depend on `persist_metastore` storing the CAPTURED end of the unflushed range.
+    In the variant machine that stores `next_wal_id` instead (`persistMetaNext`), the same history loses the two
+    batches acknowledged during the flush at the clean restart: before the restart all 4 rows are visible, after it 1. -/
+theorem C08_interleaved_cursor_must_be_captured_end :
+    ∃ (iw : IWorld Nat Nat) (w' : World Nat Nat),
+      ifoldVar true false Ex.P0 Ex.iopsFlush (iinit Ex.P0) = .ok iw ∧ iw.fl = none ∧
+      recover Ex.P0 iw.w.disk iw.w.log iw.w.lossy Ex.idOrder = .ok w' ∧
+      (content iw.w (.user 1)).map rowsLen = .ok 4 ∧ rowsLen (iacked Ex.iopsFlush (.user 1)) = 4 ∧
+      (content w' (.user 1)).map rowsLen = .ok 1 ∧ w'.disk.wal = [] :=
+  ⟨_, _, rfl, rfl, rfl, rfl, rfl, rfl, rfl⟩
 
 end LM.C08
